@@ -88,3 +88,31 @@ Proof.
     + exfalso. assert (forallb is_hex uid = true) by (eapply starts_with_hex; eauto; cbn; now rewrite Hc, Hr). congruence.
     + cbn. now apply IH.
 Qed.
+
+(* dynamically registered clients: the sector is the host of the sector_identifier_uri the client asked for *)
+Lemma registered_sector_source t u rd : u <> [] -> sector_source (registered_record t (Some u)) rd = u.
+Proof. intros N. unfold sector_source, registered_record. cbn. destruct u; [congruence|reflexivity]. Qed.
+Lemma registered_subtype t s : subtype_of (registered_record t s) = subtype_of (mkCreg t None None).
+Proof. reflexivity. Qed.
+Theorem registered_pairwise_iff (H : pystr -> pystr) (host_of : pystr -> pystr) :
+  (forall a b, H a = H b -> a = b) ->
+  forall u1 u2 rd1 rd2 uid salt n1 n2, u1 <> [] -> u2 <> [] ->
+  (grant_sub H host_of (registered_record (Some (PS "pairwise")) (Some u1)) rd1 uid salt n1
+   = grant_sub H host_of (registered_record (Some (PS "pairwise")) (Some u2)) rd2 uid salt n2
+   <-> host_of u1 = host_of u2).
+Proof.
+  intros Hinj u1 u2 rd1 rd2 uid salt n1 n2 N1 N2.
+  rewrite (pairwise_iff_sector H host_of Hinj) by reflexivity.
+  now rewrite !registered_sector_source.
+Qed.
+Theorem registered_pairwise_not_public (H : pystr -> pystr) (host_of : pystr -> pystr) :
+  (forall a b, H a = H b -> a = b) ->
+  forall u rd rd' r' uid salt n n', u <> [] -> host_of u <> [] -> subtype_of r' = Public ->
+  grant_sub H host_of (registered_record (Some (PS "pairwise")) (Some u)) rd uid salt n <> grant_sub H host_of r' rd' uid salt n'.
+Proof.
+  intros Hinj u rd rd' r' uid salt n n' N Hh Hp E. unfold grant_sub in E. rewrite Hp in E.
+  change (subtype_of (registered_record (Some (PS "pairwise")) (Some u))) with Pairwise in E. cbn [sub_of] in E.
+  inversion E as [E']. apply Hinj in E'. rewrite registered_sector_source in E' by auto.
+  apply app_inv_head in E'. destruct (host_of u) as [|c r]; [congruence|].
+  apply (f_equal (@length BinNums.N)) in E'. rewrite app_length in E'. cbn in E'. lia.
+Qed.
